@@ -27,13 +27,25 @@ inductive ArgKey
   | digit (d : Nat)
 deriving Repr, DecidableEq
 
-/-- `KeyPressEvent.append_to_arg_count(data)` -/
-def argAppend (cur : Option ArgStr) : ArgKey → Option ArgStr
-  | .dash => some { neg := true, digits := [] }            -- result = "-"
-  | .digit d =>
+/-- `KeyPressEvent.append_to_arg_count(data)`, exactly as the code has it: the outer `none` is an
+    `AssertionError` (then `key_processor.arg = result` is never reached).
+    `assert data in "-0123456789"`; for `-`: `assert current is None or current == "-"`. -/
+def argAppend (cur : Option ArgStr) : ArgKey → Option (Option ArgStr)
+  | .dash =>
     match cur with
-    | none => some { neg := false, digits := [d] }          -- result = data
-    | some a => some { a with digits := a.digits ++ [d] }   -- result = f"{current}{data}"
+    | none => some (some { neg := true, digits := [] })                    -- result = "-"
+    | some a =>
+      if a.neg && a.digits.isEmpty then some (some { neg := true, digits := [] })   -- current == "-"
+      else none                                                             -- AssertionError
+  | .digit d =>
+    if d < 10 then
+      match cur with
+      | none => some (some { neg := false, digits := [d] })          -- result = data
+      | some a => some (some { a with digits := a.digits ++ [d] })   -- result = f"{current}{data}"
+    else none                                                        -- not a digit character
+
+/-- `KeyProcessor.arg` after the handler ran: unchanged when the handler raised -/
+def argFeed (cur : Option ArgStr) (k : ArgKey) : Option ArgStr := (argAppend cur k).getD cur
 
 /-- `int(digits)` -/
 def digitsVal (ds : List Nat) : Nat := ds.foldl (fun a d => a * 10 + d) 0
@@ -51,7 +63,7 @@ def argVal (clamp clampTo : Int) : Option ArgStr → Int
 
 /-- the argument seen by the command after typing the keys `ks` -/
 def argOfKeys (clamp clampTo : Int) (ks : List ArgKey) : Int :=
-  argVal clamp clampTo (ks.foldl argAppend none)
+  argVal clamp clampTo (ks.foldl argFeed none)
 
 /-! ### word scanners (`_FIND_WORD_RE` / `_FIND_BIG_WORD_RE` `.finditer`) -/
 
